@@ -1,2 +1,3 @@
 pub mod recv;
+pub mod redirect;
 pub mod sender;
